@@ -166,6 +166,12 @@ class _TxQueue(kernel.Actor):
         seam = self.sim.sql
         self.index = len(seam.conns)
         seam.conns.append(self)
+        # a stalled connection (slow disk / busy worker thread): the run's profile may name a residue class of
+        # connection numbers whose jobs the scheduler picks much more rarely than everything else
+        prof = self.sim.profile
+        if prof.get("stall_mod") and self.index % int(prof["stall_mod"]) == int(prof.get("stall_rem", 0)):
+            self.weight_scale = float(prof.get("stall_scale", 0.02))
+            self.sim.faults["sql_conn_stalled"] += 1
         self.sim.add_actor(self)
 
     # queue API used by aiosqlite
@@ -300,10 +306,18 @@ class SimQueue:
 
     put_nowait = put
 
-    def get(self, *a, **k):
+    def get(self, block=True, timeout=None):
+        if not block:
+            return self.get_nowait()
         if not self.armed:
             raise _Park()
         self.armed = False
+        return self.q.popleft()
+
+    def get_nowait(self):
+        # whatever is queued at this instant (a writer that drains its queue into one batch)
+        if not self.q:
+            raise _queue.Empty()
         return self.q.popleft()
 
     def qsize(self):
@@ -395,6 +409,23 @@ class SimPool:
     def shutdown(self, wait=True, **k):
         self.shut = True
 
+    # the rest of the Executor interface, so that a change in /repo that uses it meets a seam and not an
+    # AttributeError of the harness
+    def map(self, fn, *iterables, timeout=None, chunksize=1):
+        futs = [self.submit(fn, *args) for args in zip(*iterables)]
+
+        def results():
+            for f in futs:
+                yield f.result()
+        return results()
+
+    def __enter__(self):
+        return self
+
+    def __exit__(self, *exc):
+        self.shutdown()
+        return False
+
 
 def install_kv(sim):
     """import kv.py on top of the fakes and patch its thread seams; returns the module"""
@@ -404,10 +435,18 @@ def install_kv(sim):
     from nostr_relay.storage import kv
 
     if not getattr(kv, "_sim_patched", False):
-        kv.queue = types.SimpleNamespace(
-            SimpleQueue=SimQueue, Queue=_queue.Queue, Full=_queue.Full, Empty=_queue.Empty
-        )
-        kv.futures = types.SimpleNamespace(ThreadPoolExecutor=SimPool)
+        class _Seamed(types.SimpleNamespace):
+            """a module with some names replaced; everything else is the real thing"""
+            def __init__(self, real, **repl):
+                super().__init__(**repl)
+                self._real = real
+
+            def __getattr__(self, name):
+                return getattr(self.__dict__["_real"], name)
+
+        import concurrent.futures as _futures
+        kv.queue = _Seamed(_queue, SimpleQueue=SimQueue)
+        kv.futures = _Seamed(_futures, ThreadPoolExecutor=SimPool)
 
         def _start(self):
             s = CUR
